@@ -118,9 +118,9 @@ def unforge_signature(data: bytes) -> str:
     """Decode signature from byte form.
 
     :param data: encoded signature.
-    :returns: base58 encoded signature (generic)
+    :returns: base58 encoded signature (generic, or BLsig for the 96-byte BLS form)
     """
-    return base58_encode(data, b'sig').decode()
+    return base58_encode(data, b'BLsig' if len(data) == 96 else b'sig').decode()
 
 
 def forge_bool(value: bool) -> bytes:
@@ -189,6 +189,10 @@ def unforge_address(data: bytes) -> str:
         b'\x00\x02': b'tz3',
         b'\x00\x03': b'tz4',
     }
+
+    if len(data) == 21:
+        # key_hash: curve tag + 20 bytes; only the length tells it from an address, the hash may start or end with any byte
+        return base58_encode(data[1:], tz_prefixes[b'\x00' + data[:1]]).decode()
 
     for bin_prefix, tz_prefix in tz_prefixes.items():
         if data.startswith(bin_prefix):
